@@ -361,6 +361,18 @@ func runC07(c *core.Ctx) {
 		if k.expect == "err" && ok {
 			c.ReportOracle("ill-formed-schema-accepted", map[string]interface{}{"op": "load", "args": hexArgs(args), "sources": k.srcs, "fault": k.fault})
 		}
+		if i%2 == 0 {
+			func() {
+				defer func() {
+					if r := recover(); r != nil {
+						c.ReportOracle("entry-point-panic", map[string]interface{}{"sources": k.srcs, "panic": fmt.Sprint(r)})
+					}
+				}()
+				if m := schemaEntryProblem(k.srcs); m != "" {
+					c.ReportOracle("entry-point-differs", map[string]interface{}{"op": "load", "args": hexArgs(args), "sources": k.srcs, "problem": m})
+				}
+			}()
+		}
 		if ok {
 			if s, err := loadImpl(k.srcs...); err == nil {
 				if m := closedProblem(s); m != "" {
